@@ -522,6 +522,26 @@ func CheckC15(env *core.Env, rep *core.Report) *core.Result {
 			}
 		})
 	}
+	// configurations that refer to files that do not exist, found by their default name (no -c):
+	// loading reports an error, it does not crash
+	for k, doc := range []string{
+		"import: [\"nosuch.yaml\"]\ntasks:\n  t:\n    command: [\"true\"]\n",
+		"import: [\"sub\"]\ntasks:\n  t:\n    command: [\"true\"]\n", // sub/a.yaml imports a file that is missing
+		"tasks:\n  t:\n    env_file: nosuch.env\n    command: [\"true\"]\n",
+		"import: [\"nosuchdir/\"]\ntasks:\n  t:\n    command: [\"true\"]\n",
+	} {
+		dd := env.Sub("dflt")
+		_ = ioutil.WriteFile(filepath.Join(dd, "tasks.yaml"), []byte(doc), 0o644)
+		_ = os.MkdirAll(filepath.Join(dd, "sub"), 0o755)
+		_ = ioutil.WriteFile(filepath.Join(dd, "sub", "a.yaml"), []byte("import: [\"../gone.yaml\"]\ntasks:\n  sa:\n    command: [\"true\"]\n"), 0o644)
+		for _, args := range [][]string{{"list"}, {"validate", "tasks.yaml"}, {"--raw", "t"}} {
+			res := e.run(dd, "", 10*time.Second, args...)
+			atomic.AddInt64(&byteRuns, 1)
+			if !judge(fmt.Sprintf("default-name:missing-file:%d", k), res, fmt.Sprintf("tasks.yaml (found by its default name) refers to a file that does not exist: taskctl %s", strings.Join(args, " ")), map[string]interface{}{"document": doc, "stderr": tailS(res.Stderr, 1200)}) {
+				break
+			}
+		}
+	}
 	e.samples.Add(map[string]interface{}{"kind": "envfile", "lines": []string{"kv", "blank", "nokv"}, "predicted": "Rejected"})
 	return e.result("exploration", int(runs), distinct.N(),
 		"structural: every (position, shape) pair of Shapes.tla - positions = top-level keys, the four sections, one entry of each, every documented field of an entry; shapes = null, int, string, empty string, bool, list, map, list of maps, nested list, deleted, duplicated, unknown key - applied to a base document that uses every documented key, serialised to YAML (all) and JSON/TOML (quick 1/3, thorough all; shapes a format cannot express are skipped and counted) and given to list, show, graph, validate; env_file: line sequences of length <=3 over 9 line classes plus a missing file (quick: all of length <=2 and 1/8 of length 3), predicted accept/reject; byte level: truncation at every 1/16, invalid UTF-8 at three offsets, empty / NUL / deeply nested input, YAML anchors, merge keys and alias expansion. distinct_nontrivial = distinct (position, shape, format) and env_file cases executed",
